@@ -148,7 +148,10 @@ def run(chk):
     fbe = chk.facts("asmjit/core/assembler.cpp", funcs=r"asmjit::BaseAssembler::embed_label(_delta)?$")
     from lib import a64common
     a64common.rule_mem_base_label(chk, a64common.load(chk))
-    narrow.run_label_delta(chk, [cfg.find_fn(fx, "x86::Assembler::_emit"), cfg.find_fn(fa64e, "a64::Assembler::_emit")] + [cfg.Fn(fo) for fo in fbe["functions"]])
+    fxh = chk.facts("asmjit/x86/x86assembler.cpp", funcs=r"asmjit::x86::[a-z_0-9]+$")
+    x86_helpers = {"%s/%d" % (g.name, len(g.params)): g for g in cfg.load_functions(fxh) if g.file.endswith("x86assembler.cpp")}
+    narrow.run_label_delta(chk, [cfg.find_fn(fx, "x86::Assembler::_emit"), cfg.find_fn(fa64e, "a64::Assembler::_emit")] + [cfg.Fn(fo) for fo in fbe["functions"]],
+                           helpers=x86_helpers)
 
     # ---------------------------------------------------------------- a label relocation takes offset and section from one label entry
     em = []
